@@ -9,8 +9,7 @@ import (
 	"strings"
 )
 
-// Mutant is a one-site, still-compiling edit of /repo applied through
-// packages.Config.Overlay. It is a positive control of the rules named: the
+// Mutant is a one-site, still-compiling edit of /repo applied to a scratch copy of the sources. It is a positive control of the rules named: the
 // rule must report the edited tree.
 type Mutant struct {
 	ID       string   `json:"id"`
@@ -41,34 +40,36 @@ func loadMutants(path string) ([]Mutant, error) {
 	return ms, nil
 }
 
-func (m *Mutant) overlay(repo string) (map[string][]byte, string) {
-	ov := map[string][]byte{}
+// scratch materialises the mutant as a scratch copy of the repository's
+// sources (no .git, a few MB) outside /repo and /verif; the caller removes it.
+// (packages.Config.Overlay is not used: with an overlay go/packages type-checks
+// every dependency from source, six times slower.)
+func (m *Mutant) scratch(repo string) (dir string, why string) {
+	edits := map[string]string{}
 	for _, e := range m.Edits {
 		p := filepath.Join(repo, e.File)
-		src, ok := ov[p]
+		s, ok := edits[e.File]
 		if !ok {
 			b, err := os.ReadFile(p)
 			if err != nil {
-				return nil, "file missing: " + e.File
+				return "", "file missing: " + e.File
 			}
-			src = b
+			s = string(b)
 		}
-		s := string(src)
 		n := strings.Count(s, e.Find)
 		if n == 0 {
-			return nil, "anchor text gone in " + e.File
+			return "", "anchor text gone in " + e.File
 		}
 		if e.Nth == 0 {
 			if n != 1 {
-				return nil, fmt.Sprintf("anchor text occurs %d times in %s", n, e.File)
+				return "", fmt.Sprintf("anchor text occurs %d times in %s", n, e.File)
 			}
 			s = strings.Replace(s, e.Find, e.Replace, 1)
 		} else {
 			if n < e.Nth {
-				return nil, fmt.Sprintf("anchor text occurs only %d times in %s", n, e.File)
+				return "", fmt.Sprintf("anchor text occurs only %d times in %s", n, e.File)
 			}
-			idx := -1
-			from := 0
+			idx, from := -1, 0
 			for k := 0; k < e.Nth; k++ {
 				j := strings.Index(s[from:], e.Find)
 				idx = from + j
@@ -76,9 +77,43 @@ func (m *Mutant) overlay(repo string) (map[string][]byte, string) {
 			}
 			s = s[:idx] + e.Replace + s[idx+len(e.Find):]
 		}
-		ov[p] = []byte(s)
+		edits[e.File] = s
 	}
-	return ov, ""
+	dir, err := os.MkdirTemp("", "bbcheck-mutant-")
+	if err != nil {
+		return "", "cannot create scratch dir: " + err.Error()
+	}
+	err = filepath.Walk(repo, func(p string, fi os.FileInfo, err error) error {
+		if err != nil {
+			return err
+		}
+		rel, _ := filepath.Rel(repo, p)
+		if fi.IsDir() {
+			if fi.Name() == ".git" || rel == "node_modules" {
+				return filepath.SkipDir
+			}
+			return os.MkdirAll(filepath.Join(dir, rel), 0o755)
+		}
+		if !fi.Mode().IsRegular() {
+			return nil
+		}
+		if strings.HasSuffix(rel, "_test.go") {
+			return nil
+		}
+		if s, ok := edits[rel]; ok {
+			return os.WriteFile(filepath.Join(dir, rel), []byte(s), 0o644)
+		}
+		b, err := os.ReadFile(p)
+		if err != nil {
+			return err
+		}
+		return os.WriteFile(filepath.Join(dir, rel), b, 0o644)
+	})
+	if err != nil {
+		os.RemoveAll(dir)
+		return "", "copy failed: " + err.Error()
+	}
+	return dir, ""
 }
 
 type mutantVerdict struct {
@@ -92,12 +127,13 @@ type mutantVerdict struct {
 
 func evalMutant(repo string, m *Mutant, baseFail map[string]bool) mutantVerdict {
 	v := mutantVerdict{ID: m.ID, Rules: m.Rules, Property: m.Property, Note: m.Note}
-	ov, why := m.overlay(repo)
-	if ov == nil {
+	dir, why := m.scratch(repo)
+	if dir == "" {
 		v.Status = "not_applicable"
 		v.Note = why
 		return v
 	}
+	defer os.RemoveAll(dir)
 	var rules []*Rule
 	for _, id := range m.Rules {
 		r := ruleByID(id)
@@ -108,7 +144,7 @@ func evalMutant(repo string, m *Mutant, baseFail map[string]bool) mutantVerdict 
 		}
 		rules = append(rules, r)
 	}
-	res := runRules(repo, rules, []BuildConfig{{"linux", "amd64"}}, false, ov)
+	res := runRules(dir, rules, []BuildConfig{{"linux", "amd64"}}, false, nil)
 	for _, b := range res.broken {
 		if strings.Contains(b, "type/load errors") {
 			v.Status = "does_not_compile"
@@ -123,16 +159,31 @@ func evalMutant(repo string, m *Mutant, baseFail map[string]bool) mutantVerdict 
 	}
 	if len(v.Reports) > 0 {
 		v.Status = "detected"
+	} else if len(res.broken) > 0 {
+		v.Status = "checker_error"
+		v.Note = strings.Join(res.broken, "; ")
 	} else {
 		v.Status = "MISSED"
-		if len(res.broken) > 0 {
-			v.Note = strings.Join(res.broken, "; ")
-		}
 	}
 	return v
 }
 
+var baseFailCache = map[string]map[string]bool{}
+
 func baseFailures(repo string, rules []*Rule) map[string]bool {
+	ck := repo
+	for _, r := range rules {
+		ck += "|" + r.ID
+	}
+	if bf, ok := baseFailCache[ck]; ok {
+		return bf
+	}
+	bf := baseFailuresUncached(repo, rules)
+	baseFailCache[ck] = bf
+	return bf
+}
+
+func baseFailuresUncached(repo string, rules []*Rule) map[string]bool {
 	res := runRules(repo, rules, []BuildConfig{{"linux", "amd64"}}, false, nil)
 	bf := map[string]bool{}
 	for _, o := range res.obs {
@@ -203,5 +254,5 @@ func runMutantSuite(repo, dir, prop string) map[string]any {
 		}
 	}
 	return map[string]any{"mutants": len(verdicts), "by_status": counts, "verdicts": verdicts,
-		"note": "one-site still-compiling edits of /repo applied through a go/packages overlay; positive controls for the rules, evidence only"}
+		"note": "one-site still-compiling edits of /repo applied to a scratch copy of the sources; positive controls for the rules, evidence only"}
 }
